@@ -422,6 +422,27 @@ func sharedPlans(schema *graphql.Schema) map[int]*graphql.Plan {
 	return out
 }
 
+// sequential baseline on its own schema: every request run alone (computed once per driver run)
+var baselineOnce map[[2]int]string
+
+func baseline() map[[2]int]string {
+	if baselineOnce != nil {
+		return baselineOnce
+	}
+	base := buildSchema()
+	baseCache := graphql.NewPlanCache(graphql.PlanCacheOptions{MaxEntries: 4})
+	basePlans := sharedPlans(&base)
+	expect := map[[2]int]string{}
+	for kind := 0; kind <= 2; kind++ {
+		for qi, rq := range requests {
+			out, _ := issue(kind, rq, &base, baseCache, basePlans, qi)
+			expect[[2]int{kind, qi}] = out
+		}
+	}
+	baselineOnce = expect
+	return expect
+}
+
 func trial(k int, seed uint64, tier string) report {
 	r := &rng{s: seed*0x9E3779B97F4A7C15 + uint64(k)*0xBF58476D1CE4E5B9 + 7}
 	r.next()
@@ -469,17 +490,7 @@ func trial(k int, seed uint64, tier string) report {
 			progs[g] = append(progs[g], o)
 		}
 	}
-	// sequential baseline on its own cold schema: every request run alone
-	base := buildSchema()
-	baseCache := graphql.NewPlanCache(graphql.PlanCacheOptions{MaxEntries: 4, Normalize: r.intn(2) == 0})
-	basePlans := sharedPlans(&base)
-	expect := map[[2]int]string{}
-	for kind := 0; kind <= 2; kind++ {
-		for qi, rq := range requests {
-			out, _ := issue(kind, rq, &base, baseCache, basePlans, qi)
-			expect[[2]int{kind, qi}] = out
-		}
-	}
+	expect := baseline()
 
 	schema := buildSchema() // cold: shared by all goroutines of this trial
 	cache := graphql.NewPlanCache(graphql.PlanCacheOptions{MaxEntries: 4, Normalize: r.intn(2) == 0})
